@@ -246,6 +246,86 @@ pub fn run(prop: &str, tier: &str, seed: u64, out: &mut dyn Write) {
     ctx.finish();
 }
 
+/// `==` / `cmp` / `partial_cmp` must depend on the BYTES of their operands, not on where they live: a path
+/// compared with a sub-slice of its OWN buffer (its parent, an ancestor, a tail) must answer like the same
+/// comparison between separately allocated copies — in the byte, UTF-8 and typed families, both operand
+/// orders.  Returns a description on a mismatch.
+pub fn cmp_alias_mismatch(win: bool, p: &[u8], lo: usize, hi: usize) -> Option<String> {
+    use std::cmp::Ordering;
+    if lo > hi || hi > p.len() {
+        return None;
+    }
+    let q = &p[lo..hi];
+    let copy_p = p.to_vec();
+    let copy_q = q.to_vec();
+    fn quad_b(win: bool, a: &[u8], b: &[u8]) -> (bool, Ordering, Ordering, Option<Ordering>) {
+        if win {
+            let (x, y) = (WindowsPath::new(a), WindowsPath::new(b));
+            (x == y, x.cmp(y), y.cmp(x), x.partial_cmp(y))
+        } else {
+            let (x, y) = (UnixPath::new(a), UnixPath::new(b));
+            (x == y, x.cmp(y), y.cmp(x), x.partial_cmp(y))
+        }
+    }
+    fn quad_u(win: bool, a: &str, b: &str) -> (bool, Ordering, Ordering, Option<Ordering>) {
+        if win {
+            let (x, y) = (Utf8WindowsPath::new(a), Utf8WindowsPath::new(b));
+            (x == y, x.cmp(y), y.cmp(x), x.partial_cmp(y))
+        } else {
+            let (x, y) = (Utf8UnixPath::new(a), Utf8UnixPath::new(b));
+            (x == y, x.cmp(y), y.cmp(x), x.partial_cmp(y))
+        }
+    }
+    fn tri_t(win: bool, a: &[u8], b: &[u8]) -> (bool, Option<Ordering>, Option<Ordering>) {
+        let (x, y) = if win { (TypedPath::windows(a), TypedPath::windows(b)) } else { (TypedPath::unix(a), TypedPath::unix(b)) };
+        (x == y, x.partial_cmp(&y), y.partial_cmp(&x))
+    }
+    fn tri_t8(win: bool, a: &str, b: &str) -> (bool, Option<Ordering>, Option<Ordering>) {
+        let (x, y) = if win { (Utf8TypedPath::windows(a), Utf8TypedPath::windows(b)) } else { (Utf8TypedPath::unix(a), Utf8TypedPath::unix(b)) };
+        (x == y, x.partial_cmp(&y), y.partial_cmp(&x))
+    }
+    let want = quad_b(win, &copy_p, &copy_q);
+    let got = quad_b(win, p, q);
+    if got != want {
+        return Some(format!("byte family, operand = the path's own bytes [{}..{}]: {:?}; separate copies: {:?}", lo, hi, got, want));
+    }
+    if tri_t(win, p, q) != tri_t(win, &copy_p, &copy_q) {
+        return Some(format!("typed family, operand = the path's own bytes [{}..{}]", lo, hi));
+    }
+    if let Ok(sp) = std::str::from_utf8(p) {
+        if sp.is_char_boundary(lo) && sp.is_char_boundary(hi) {
+            let sq = &sp[lo..hi];
+            let (cp, cq) = (sp.to_string(), sq.to_string());
+            let want8 = quad_u(win, &cp, &cq);
+            let got8 = quad_u(win, sp, sq);
+            if got8 != want8 || got8 != want {
+                return Some(format!("UTF-8 family, operand = the path's own text [{}..{}]: {:?}; separate copies: {:?}; byte family {:?}", lo, hi, got8, want8, want));
+            }
+            if tri_t8(win, sp, sq) != tri_t8(win, &cp, &cq) {
+                return Some(format!("UTF-8 typed family, operand = the path's own text [{}..{}]", lo, hi));
+            }
+        }
+    }
+    None
+}
+
+/// the sub-slices worth comparing a path with: its parent, every ancestor, its tail after the first byte,
+/// everything but the last byte, itself
+pub fn alias_ranges(win: bool, p: &[u8]) -> Vec<(usize, usize)> {
+    let mut v = vec![(0, p.len())];
+    if !p.is_empty() {
+        v.push((1, p.len()));
+        v.push((0, p.len() - 1));
+    }
+    let lens: Vec<usize> = if win { WindowsPath::new(p).ancestors().map(|a| a.as_bytes().len()).collect() } else { UnixPath::new(p).ancestors().map(|a| a.as_bytes().len()).collect() };
+    for l in lens.into_iter().take(6) {
+        if !v.contains(&(0, l)) {
+            v.push((0, l));
+        }
+    }
+    v
+}
+
 /// `starts_with` / `ends_with` / `strip_prefix` must depend on the BYTES of their arguments, not on where
 /// they live: when `q` occurs inside `p`'s own buffer (as a prefix, a suffix, anywhere), the call with that
 /// sub-slice must answer like the call with a separately allocated copy.  Returns a description on a
